@@ -465,4 +465,161 @@ Proof.
   intros s s' r I P E. injection E as <- <-. destruct I as [Hw Ht]. split; [|split; [exact (ext_refl s)|auto]].
   split; cbn; [repeat split; auto|reflexivity].
 Qed.
+
+(* ------------------------------------------------------------------ the handler language *)
+(* no pickling outside the allow_pickle guard; g = "we are under the guard" *)
+Fixpoint pk (g : bool) (e : hexp) : bool :=
+  match e with
+  | XOp op a b => (match op with OpPickle => g | _ => true end) && pk g a && pk g b
+  | XGuardCfg key _ body => if String.eqb key "allow_pickle" then pk true body else true
+  | XTupCons a b | XLet a b | XSlice a b | XDecref a b | XTryExc a b => pk g a && pk g b
+  | XAccess _ o n x => pk g o && pk g n && pk g x
+  | XType a | XLookup a | XCtxArgs a => pk g a
+  | XCall f p st k => pk g f && pk g p && pk g st && pk g k
+  | XIfNone c t e | XIfHasConn c t e => pk g c && pk g t && pk g e
+  | XForward c _ a => pk g c && pk g a
+  | _ => true
+  end.
+
+Lemma spec_emit_hold (pre : state -> Prop) e ys : tbl_neutral e -> (forall g, g_auth (gstep g e) = ys ++ g_auth g) ->
+  (forall s, Inv s -> pre s -> ev_ok (ghost_of (tr s)) e) -> spec pre (emit e) (fun s _ => incl ys (auth s)).
+Proof.
+  intros Hn Hg Hok s s' r I P E. injection E as <- <-. split; [|split].
+  - apply inv_add; auto. rewrite gstep_neutral by exact Hn. apply I.
+  - unfold ext, auth. cbn. rewrite Hg. apply incl_appr, incl_refl.
+  - intros _ _. unfold auth. cbn. rewrite Hg. apply incl_appl, incl_refl.
+Qed.
+Lemma holds_tuple_items s b : holds s b -> holds_all s (tuple_items b).
+Proof.
+  destruct b; cbn [tuple_items]; try (intros; constructor).
+  - destruct v; try (intros; constructor). intros _. apply Forall_forall. intros x Hx. apply in_map_iff in Hx as (p & <- & _). now apply holds_noobj.
+  - intros H. now apply holds_LT.
+Qed.
+Lemma holds_all_app s a b : holds_all s a -> holds_all s b -> holds_all s (a ++ b).
+Proof. intros. now apply Forall_app. Qed.
+Lemma holds_nth s l i v : holds_all s l -> nth_error l i = Some v -> holds s v.
+Proof. intros H E. apply nth_error_In in E. unfold holds_all in H. rewrite Forall_forall in H. now apply H. Qed.
+
+Ltac sp_bind M := eapply spec_bind with (mid := M); [auto 10 with stab| |].
+Ltac sp_pre L := eapply spec_pre; [apply L|].
+Definition PRE (env loc : list lval) : state -> Prop := fun s => holds_all s env /\ holds_all s loc.
+Lemma stable_PRE env loc : stable (PRE env loc). Proof. unfold PRE. auto with stab. Qed.
+Hint Resolve stable_PRE : stab.
+
+Lemma spec_eval e : pk (c_pickle C) e = true -> forall env loc, spec (PRE env loc) (eval S C UL BL env loc e) holds.
+Proof.
+  induction e; intros Hpk env loc; cbn [eval]; cbn [pk] in Hpk;
+    repeat match goal with H : _ && _ = true |- _ => apply andb_prop in H; let a := fresh "K" in let b := fresh "K" in destruct H as [a b] end.
+  - (* XParam *) destruct (nth_error env i) eqn:E; [|apply spec_unm]. apply spec_ret. intros s [H _]. eapply holds_nth; eauto.
+  - (* XLocal *) destruct (nth_error loc i) eqn:E; [|apply spec_unm]. apply spec_ret. intros s [_ H]. eapply holds_nth; eauto.
+  - apply spec_ret; intros; now apply holds_noobj.
+  - apply spec_ret; intros; now apply holds_noobj.
+  - apply spec_ret; intros; now apply holds_noobj.
+  - apply spec_ret; intros; now apply holds_noobj.
+  - apply spec_ret; intros; now apply holds_noobj.
+  - (* XRoot *)
+    sp_bind (fun s (_ : unit) => incl [s_root S] (auth s)).
+    + apply spec_emit_hold; [exact Logic.I|reflexivity|]. intros; reflexivity.
+    + intros _. apply spec_ret. intros s [_ H]. exact H.
+  - (* XCleanup *)
+    sp_bind (fun (_ : state) (_ : unit) => True); [apply spec_cleanup|]. intros _. apply spec_ret; intros; now apply holds_noobj.
+  - apply spec_ret; intros; now apply holds_noobj.
+  - (* XTupCons *)
+    sp_bind holds; [apply IHe1; assumption|]. intros a.
+    sp_bind holds; [sp_pre IHe2; [assumption|tauto]|]. intros b.
+    apply spec_ret. intros s [[_ Ha] Hb]. apply holds_LT. constructor; [exact Ha|now apply holds_tuple_items].
+  - (* XLet *)
+    sp_bind holds; [apply IHe1; assumption|]. intros v.
+    eapply spec_pre; [apply (IHe2 ltac:(assumption) env (v :: loc))|]. intros s [[He Hl] Hv]. split; [exact He|constructor; assumption].
+  - (* XAccess *)
+    sp_bind holds; [apply IHe1; assumption|]. intros ov.
+    sp_bind holds; [sp_pre IHe2; [assumption|tauto]|]. intros nv.
+    sp_bind holds; [sp_pre IHe3; [assumption|tauto]|]. intros xv.
+    sp_pre spec_access. tauto.
+  - (* XType *)
+    sp_bind holds; [apply IHe; assumption|]. intros v. destruct v; try (apply spec_ret; intros; now apply holds_noobj).
+    + sp_bind (fun s (_ : unit) => incl [s_type S o] (auth s)).
+      * apply spec_emit_hold; [exact Logic.I|reflexivity|]. intros s _ [_ H]. cbn. split; [now apply holds_LO|reflexivity].
+      * intros _. apply spec_ret. intros s [_ H]. exact H.
+    + sp_bind (fun (_ : state) (_ : unit) => True); [apply spec_mark|]. intros _. apply spec_ret; intros; now apply holds_noobj.
+  - (* XCall *)
+    sp_bind holds; [apply IHe1; assumption|]. intros fv.
+    sp_bind holds; [sp_pre IHe2; [assumption|tauto]|]. intros pv.
+    sp_bind holds; [sp_pre IHe3; [assumption|tauto]|]. intros sv.
+    sp_bind holds; [sp_pre IHe4; [assumption|tauto]|]. intros kv.
+    sp_bind (fun s (sk : list lval * list (lval * lval)) => holds_all s (fst sk)).
+    + destruct (tuple_items pv).
+      * sp_bind (fun (_ : state) (_ : list (lval * lval)) => True); [sp_pre spec_kw; tauto|]. intros k.
+        sp_bind (fun (_ : state) (_ : unit) => True).
+        { destruct fv; try (apply spec_ret; auto); destruct sv; try (apply spec_ret; auto);
+            destruct (iter_elems false v) eqn:Ei; try (apply spec_ret; auto).
+          - sp_bind holds; [|intros; apply spec_ret; auto]. apply spec_touch; [|discriminate].
+            intros s H. apply holds_LO. tauto.
+          - eapply spec_pre with (pre := fun s => holds_all s [LP idp]); [|auto with stab]. apply spec_converse_any. intros; apply spec_unm. }
+        intros _. sp_bind holds_all; [sp_pre spec_iter; tauto|]. intros l0. apply spec_ret. intros s H. cbn. tauto.
+      * sp_bind holds_all; [sp_pre spec_iter; tauto|]. intros l1.
+        sp_bind (fun (_ : state) (_ : list (lval * lval)) => True); [sp_pre spec_kw; tauto|]. intros k. apply spec_ret. intros s H. cbn. tauto.
+    + intros sk. destruct fv; try apply spec_unm; try apply spec_raise.
+      * apply spec_val_op.
+      * apply spec_touch; [|discriminate]. intros s H. apply holds_LO. tauto.
+      * sp_pre spec_converse. intros s H. constructor; [apply holds_LP|]. apply holds_all_app; [apply holds_tuple_items|]; tauto.
+  - (* XOp *)
+    sp_bind holds; [apply IHe1; assumption|]. intros av.
+    sp_bind holds; [sp_pre IHe2; [assumption|tauto]|]. intros bv.
+    sp_pre spec_do_op; [|tauto]. intros ->. destruct (c_pickle C); [reflexivity|discriminate].
+  - (* XSlice *)
+    sp_bind holds; [apply IHe1; assumption|]. intros av.
+    sp_bind holds; [sp_pre IHe2; [assumption|tauto]|]. intros bv.
+    apply spec_ret. intros s [[_ Ha] Hb]. unfold holds. cbn. apply incl_app; assumption.
+  - (* XLookup *)
+    sp_bind holds; [apply IHe; assumption|]. intros kv. destruct (as_value kv); [apply spec_resolve|apply spec_unm].
+  - (* XDecref *)
+    sp_bind holds; [apply IHe1; assumption|]. intros kv.
+    sp_bind holds; [sp_pre IHe2; [assumption|tauto]|]. intros cv.
+    sp_pre spec_decref. tauto.
+  - (* XGuardCfg *)
+    destruct (String.eqb key "allow_pickle"); [|apply spec_unm].
+    destruct (c_pickle C) eqn:Ec; [apply IHe; exact Hpk|apply spec_raise].
+  - (* XTryExc *)
+    intros s s' r I P E. destruct (eval S C UL BL env loc e1 s) as [s1 r1] eqn:E1.
+    destruct (IHe1 ltac:(assumption) env loc _ _ _ I P E1) as (I1 & X1 & Q1).
+    destruct r1 as [a|x|].
+    + injection E as <- <-. split; [exact I1|split; [exact X1|exact Q1]].
+    + destruct (is_exception x).
+      * destruct (IHe2 ltac:(assumption) env loc _ _ _ I1 (stable_PRE _ _ _ _ X1 P) E) as (I2 & X2 & Q2).
+        split; [exact I2|split; [exact (ext_trans _ _ _ X1 X2)|exact Q2]].
+      * injection E as <- <-. split; [exact I1|split; [exact X1|exact Q1]].
+    + injection E as <- <-. split; [exact I1|split; [exact X1|exact Q1]].
+  - (* XIfNone *)
+    sp_bind holds; [apply IHe1; assumption|]. intros cv.
+    destruct cv; try (sp_pre IHe3; [assumption|tauto]). destruct v; try (sp_pre IHe3; [assumption|tauto]). sp_pre IHe2; [assumption|tauto].
+  - (* XIfHasConn *)
+    sp_bind holds; [apply IHe1; assumption|]. intros cv.
+    destruct cv; try (sp_pre IHe3; [assumption|tauto]); [|sp_pre IHe2; [assumption|tauto]].
+    sp_bind (fun (_ : state) (_ : unit) => True).
+    + apply spec_emit; [exact Logic.I|]. intros s _ [_ H]. cbn. split; [now apply holds_LO|discriminate].
+    + intros _. sp_pre IHe3; [assumption|tauto].
+  - (* XForward *)
+    sp_bind holds; [apply IHe1; assumption|]. intros cv.
+    sp_bind holds; [sp_pre IHe2; [assumption|tauto]|]. intros av.
+    sp_pre spec_converse. intros s [_ H]. now apply holds_all_one.
+  - (* XCtxArgs *)
+    sp_bind holds; [apply IHe; assumption|]. intros v.
+    sp_bind (fun (_ : state) (_ : bool) => True); [sp_pre spec_truthy; tauto|]. intros b.
+    destruct b.
+    + intros s s' r I [[_ Hv] _] E.
+      assert (G : forall (s1 : state) (r1 : res lval), Inv s1 -> ext s s1 ->
+                match r1 with
+                | RRaise x => if is_exception x then (s1, ROk (LT [LOpq; LOpq; LOpq])) else (s1, @RRaise lval x)
+                | ROk _ => (s1, @RUnm lval)
+                | RUnm => (s1, @RUnm lval)
+                end = (s', r) -> Inv s' /\ ext s s' /\ (forall a, r = ROk a -> holds s' a)).
+      { intros s1 r1 I1 X1 E1. destruct r1 as [a|x|]; [| destruct (is_exception x)|]; injection E1 as <- <-;
+          (split; [exact I1|split; [exact X1|intros a0 Ha; try discriminate]]). injection Ha as <-. now apply holds_noobj. }
+      destruct v; try (apply (G s _ I (ext_refl s) E)).
+      destruct (touch S OpRaise o [] s) as [s1 r1] eqn:Et.
+      destruct (spec_touch (fun s => holds s (LO o)) OpRaise o [] (fun s H => proj1 (holds_LO s o) H) ltac:(discriminate) _ _ _ I Hv Et) as (I1 & X1 & _).
+      exact (G s1 r1 I1 X1 E).
+    + apply spec_ret. intros s [[_ Hv] _]. apply holds_LT. constructor; [exact Hv|]. constructor; [now apply holds_noobj|]. constructor; [now apply holds_noobj|constructor].
+Qed.
 End Inv.
